@@ -56,6 +56,21 @@ def spec_empty_seq(engine, state, kind):
     return ArrVal(z3.K(IntS, to_z3(0, sort)), elem)
 
 
+
+
+def ins_rel(new, old, n_old, p, v, eq="is"):
+    """`new` (length n_old+1) is `old` (length n_old) with v inserted at index p - elementwise, both directions"""
+    return ("(forall(0, {p}, lambda ei: {new}[ei] {eq} {old}[ei]) and {new}[{p}] {eq} {v} and "
+            "forall({p} + 1, {n} + 1, lambda ei: {new}[ei] {eq} {old}[ei - 1]) and "
+            "forall({p}, {n}, lambda ei: {new}[ei + 1] {eq} {old}[ei]))").format(new=new, old=old, n=n_old, p=p, v=v, eq=eq)
+
+
+def rem0_rel(new, old, n_old, eq="is"):
+    """`new` is `old` without its first element"""
+    return ("(forall(0, {n} - 1, lambda ei: {new}[ei] {eq} {old}[ei + 1]) and "
+            "forall(1, {n}, lambda ei: {old}[ei] {eq} {new}[ei - 1]))").format(new=new, old=old, n=n_old, eq=eq)
+
+
 SPEC_FUNCS = dict(CORE_SPEC)
 SPEC_FUNCS.update({"seq_insert": spec_seq_insert, "seq_remove": spec_seq_remove, "seq_store": spec_seq_store,
                    "pos_after_insert": spec_pos_after_insert, "empty_seq": spec_empty_seq})
@@ -87,12 +102,14 @@ def depq_contracts():
                            "forall(gp, old(self.glen), lambda qi: old(self.gkeys[qi]) < priority)",
                            # unbounded, or bounded and not full: the entry is inserted at its rank
                            "implies(self.maxlen == 0 or old(self.glen) < self.maxlen, self.glen == old(self.glen) + 1 and "
-                           "self.gitems == seq_insert(old(self.gitems), gp, item) and "
-                           "self.gkeys == seq_insert(old(self.gkeys), gp, priority))",
+                           "" + ins_rel("self.gitems", "old(self.gitems)", "old(self.glen)", "gp", "item") + " and "
+                           + ins_rel("self.gkeys", "old(self.gkeys)", "old(self.glen)", "gp", "priority", "==") + ")",
                            # bounded and full: inserted at its rank, then the last (lowest) entry is evicted
                            "implies(self.maxlen != 0 and old(self.glen) >= self.maxlen, self.glen == old(self.glen) and "
-                           "forall(0, self.glen, lambda qi: self.gitems[qi] is seq_insert(old(self.gitems), gp, item)[qi] and "
-                           "self.gkeys[qi] == seq_insert(old(self.gkeys), gp, priority)[qi]))",
+                           "forall(0, gp, lambda ei: self.gitems[ei] is old(self.gitems[ei]) and self.gkeys[ei] == old(self.gkeys[ei])) and "
+                           "implies(gp < self.glen, self.gitems[gp] is item and self.gkeys[gp] == priority) and "
+                           "forall(gp + 1, self.glen, lambda ei: self.gitems[ei] is old(self.gitems[ei - 1]) and "
+                           "self.gkeys[ei] == old(self.gkeys[ei - 1])))",
                        ],
                        doc="ASSUMED: insert keeps the entries sorted (after all entries of priority >= the new one); "
                            "a full bounded queue then drops its last entry"))
@@ -104,7 +121,8 @@ def depq_contracts():
                                 "forall(0, old(self.glen), lambda qi: old(self.gkeys[qi]) <= result[1])",
                                 "result[0] is old(self.gitems[0]) and result[1] == old(self.gkeys[0])",
                                 "self.glen == old(self.glen) - 1",
-                                "self.gitems == seq_remove(old(self.gitems), 0) and self.gkeys == seq_remove(old(self.gkeys), 0)"],
+                                rem0_rel("self.gitems", "old(self.gitems)", "old(self.glen)") + " and " +
+                                rem0_rel("self.gkeys", "old(self.gkeys)", "old(self.glen)", "==")],
                        doc="ASSUMED: removes and returns the first entry (highest priority, earliest inserted among equals); "
                            "IndexError on an empty queue is excluded by the pre-condition"))
     cs.append(Contract("<depq>", "DEPQ.poplast", params={}, result="tuple(ref:SearchDataItem?,real)",
@@ -176,14 +194,17 @@ def cq_contracts():
                            "forall(0, gp, lambda qi: old({q}.gkeys[qi]) >= key)".format(q=BQ),
                            "forall(gp, old({q}.glen), lambda qi: old({q}.gkeys[qi]) < key)".format(q=BQ),
                            "implies({q}.maxlen == 0 or old({q}.glen) < {q}.maxlen, {q}.glen == old({q}.glen) + 1 and "
-                           "{q}.gitems == seq_insert(old({q}.gitems), gp, dataItem) and "
-                           "{q}.gkeys == seq_insert(old({q}.gkeys), gp, key) and "
-                           "{q}.gcnt == seq_store(old({q}.gcnt), dataItem, old({q}.gcnt[dataItem]) + 1))".format(q=BQ),
+                           "{i1} and {i2} and "
+                           "{q}.gcnt == seq_store(old({q}.gcnt), dataItem, old({q}.gcnt[dataItem]) + 1))".format(
+                               q=BQ, i1=ins_rel(BQ + ".gitems", "old(%s.gitems)" % BQ, "old(%s.glen)" % BQ, "gp", "dataItem"),
+                               i2=ins_rel(BQ + ".gkeys", "old(%s.gkeys)" % BQ, "old(%s.glen)" % BQ, "gp", "key", "==")),
                            # C19 "a bounded queue retains the highest-priority entries": the retained entries are the first
                            # maxlen entries of the sorted sequence extended by the new entry
                            "implies({q}.maxlen != 0 and old({q}.glen) >= {q}.maxlen, {q}.glen == old({q}.glen) and "
-                           "forall(0, {q}.glen, lambda qi: {q}.gitems[qi] is seq_insert(old({q}.gitems), gp, dataItem)[qi] and "
-                           "{q}.gkeys[qi] == seq_insert(old({q}.gkeys), gp, key)[qi]))".format(q=BQ),
+                           "forall(0, gp, lambda ei: {q}.gitems[ei] is old({q}.gitems[ei]) and {q}.gkeys[ei] == old({q}.gkeys[ei])) and "
+                           "implies(gp < {q}.glen, {q}.gitems[gp] is dataItem and {q}.gkeys[gp] == key) and "
+                           "forall(gp + 1, {q}.glen, lambda ei: {q}.gitems[ei] is old({q}.gitems[ei - 1]) and "
+                           "{q}.gkeys[ei] == old({q}.gkeys[ei - 1])))".format(q=BQ),
                        ],
                        doc="C19: the entry (dataItem, key) is queued at its priority rank; a full bounded queue keeps the "
                            "highest-priority entries"))
@@ -195,7 +216,8 @@ def cq_contracts():
                            "forall(0, old({q}.glen), lambda qi: old({q}.gkeys[qi]) <= result[1])".format(q=BQ),
                            "{q}.glen == old({q}.glen) - 1".format(q=BQ),
                            "{q}.gcnt == seq_store(old({q}.gcnt), result[0], old({q}.gcnt[result[0]]) - 1)".format(q=BQ),
-                           "{q}.gitems == seq_remove(old({q}.gitems), 0) and {q}.gkeys == seq_remove(old({q}.gkeys), 0)".format(q=BQ)],
+                           rem0_rel(BQ + ".gitems", "old(%s.gitems)" % BQ, "old(%s.glen)" % BQ) + " and " +
+                           rem0_rel(BQ + ".gkeys", "old(%s.gkeys)" % BQ, "old(%s.glen)" % BQ, "==")],
                        doc="C19: returns (and removes) an entry of maximal priority, the earliest inserted among equals"))
     cs.append(Contract(F_SD, "CharacteristicsQueue.IsEmpty", params={}, result="bool", modifies=[], allocates=False,
                        requires=inv, ensures=["result == ({q}.glen == 0)".format(q=BQ)], doc="C19"))
@@ -320,7 +342,7 @@ def sd_contracts(dual=False):
                  "self.gseq = seq_insert(self.gseq, gk, newDataItem)",
                  "self.gn = self.gn + 1"]
     view_post = ["1 <= gk and gk <= old(self.gn) - 1",
-                 "self.gn == old(self.gn) + 1 and self.gseq == seq_insert(old(self.gseq), gk, newDataItem)",
+                 "self.gn == old(self.gn) + 1",
                  "self.gseq[gk] is newDataItem and self.gseq[gk + 1] is old(self.gseq[gk])",
                  "forall(0, gk, lambda k: self.gseq[k] is old(self.gseq[k]))",
                  "forall(gk + 1, self.gn, lambda k: self.gseq[k] is old(self.gseq[k - 1]))",
@@ -393,9 +415,10 @@ def sd_queue_contracts(dual=False):
                                # non-empty queue: the first entry, whose queued characteristic is maximal
                                "implies(old(%s.glen) >= 1, result is old(%s.gitems[0]) and %s.glen == old(%s.glen) - 1 and "
                                "forall(0, old(%s.glen), lambda qi: old(%s.gkeys[qi]) <= old(%s.gkeys[0])) and "
-                               "%s.gitems == seq_remove(old(%s.gitems), 0) and %s.gkeys == seq_remove(old(%s.gkeys), 0) and "
+                               "%s and %s and "
                                "%s.gcnt == seq_store(old(%s.gcnt), result, old(%s.gcnt[result]) - 1))"
-                               % ((GQ,) * 14),
+                               % ((GQ,) * 7 + (rem0_rel(GQ + ".gitems", "old(%s.gitems)" % GQ, "old(%s.glen)" % GQ),
+                                              rem0_rel(GQ + ".gkeys", "old(%s.gkeys)" % GQ, "old(%s.glen)" % GQ, "==")) + (GQ,) * 3),
                                # empty queue: refilled first; the result is an item of maximal current characteristic
                                "implies(old(%s.glen) == 0, %s)" % (GQ, member("result")),
                                "implies(old(%s.glen) == 0, %s.glen == self.gn - 1)" % (GQ, GQ),
